@@ -21,10 +21,18 @@ def specC05 (j : Json) : Json :=
       let terms := (getArr j "terms").map (fun t =>
         let x := matrixOfJson ((t.getObjVal? "x").toOption.getD Json.null)
         let z := matrixOfJson ((t.getObjVal? "z").toOption.getD Json.null)
+        let d30 := Spec.C05.classD30 table (strList t "factor")
+        -- the group names the evaluation model predicts for this grouping factor (the model
+        -- mirrors D30: a factor that carries its own contrast is coded with it)
+        let modelGroups : Json :=
+          match trainGroup env table ⟨"", none, ⟨"", (strList t "factor").map (fun c => (c, true))⟩⟩ with
+          | .ok g => jStrs g.st.groups
+          | .error _ => Json.null
         match Spec.C05.check env table (strList t "factor") (strList t "groups") x z with
         | .ok v => Json.mkObj [("groups_ok", v.groupsOk), ("blocks_ok", v.blocksOk),
-                               ("rows_in_one_group", v.everyRowInOneGroup)]
-        | .error er => errTag er)
+                               ("rows_in_one_group", v.everyRowInOneGroup), ("class_d30", d30),
+                               ("model_groups", modelGroups)]
+        | .error er => ((errTag er).setObjVal! "class_d30" d30).setObjVal! "model_groups" modelGroups)
       Json.mkObj [("terms", Json.arr terms.toArray)]
 
 def termDescOfJson (j : Json) : Option Encoding.TermDesc :=
